@@ -151,6 +151,40 @@ fn case_local(name: &str, bytes: &[u8], z: &Zone, t: i64, acc: &mut Acc) {
     acc.branch("offset-local");
 }
 
+/// Offset::Local resolved twice in a row on the same data: one second before a switch-over and at
+/// it. The answer to the second call must not depend on the first (a history of two calls).
+fn case_local_sequence(name: &str, bytes: &[u8], z: &Zone, acc: &mut Acc) {
+    let mut instants: Vec<i64> = z.transitions.iter().map(|(t, _)| *t).filter(|t| *t > 60 && t % 60 != 0).take(6).collect();
+    instants.extend(z.transitions.iter().map(|(t, _)| *t).filter(|t| *t > 60 && t % 60 == 0).rev().take(2));
+    if let Some(r) = &z.footer {
+        for y in [2030i64, 2031] {
+            for (s, _) in rz::switches(r, y) {
+                if z.transitions.last().map_or(true, |(l, _)| s > *l) {
+                    instants.push(s);
+                }
+            }
+        }
+    }
+    astrolabe::verif_hooks::set_localtime_bytes(Some(bytes.to_vec()));
+    for t in instants {
+        let (w1, w2) = match (rz::offset_at(z, t - 1), rz::offset_at(z, t)) {
+            (Some(a), Some(b)) => (a, b),
+            _ => continue,
+        };
+        acc.transitions += 2;
+        astrolabe::verif_hooks::set_now(Some(Duration::from_secs((t - 1) as u64)));
+        let first = call(|| Offset::Local.resolve());
+        astrolabe::verif_hooks::set_now(Some(Duration::from_secs(t as u64)));
+        let second = call(|| Offset::Local.resolve());
+        if first != Out::Val(w1) || second != Out::Val(w2) {
+            acc.violation("Offset::Local.resolve", "two-calls-across-a-switch-over", json!({"kind": "local_seq", "name": name, "t": t, "bytes_hex": if bytes.len() <= 600 { hex(bytes) } else { String::new() }}), format!("{} then {}", w1, w2), format!("{} then {}", first.show(), second.show()));
+        }
+        acc.branch("offset-local-sequence");
+    }
+    astrolabe::verif_hooks::set_localtime_bytes(None);
+    astrolabe::verif_hooks::set_now(None);
+}
+
 /// drop trailing transitions that the footer rule reproduces (slim encoding)
 fn slim(z: &Zone) -> Option<Zone> {
     let r = z.footer.as_ref()?;
@@ -399,7 +433,7 @@ pub fn run(ctx: &Ctx) -> i32 {
         "synthesised footers are filtered to IANA shape (switch-overs more than 8 days apart and more than 9 days from 1 January); files with a table and a footer are generated from the rule, so they are RFC-consistent by construction".into(),
         "the reference evaluator is cross-checked against CPython zoneinfo on the corpus in the thorough tier (tools/tz_crosscheck.py)".into(),
     ];
-    rep.require(&["decided-by-footer", "decided-by-table", "at-transition-instant", "offset-local"]);
+    rep.require(&["decided-by-footer", "decided-by-table", "at-transition-instant", "offset-local", "offset-local-sequence"]);
     let corpus = load_corpus();
     if corpus.len() < 100 {
         rep.machinery_errors.push(format!("corpus at {} has only {} files", corpus_dir(), corpus.len()));
@@ -437,6 +471,7 @@ pub fn run(ctx: &Ctx) -> i32 {
         for t in [0i64, 1_700_000_000, 1_720_000_000, 2_163_196_800, 4_000_000_000] {
             case_local(n, b, z, t, acc);
         }
+        case_local_sequence(n, b, z, acc);
         if i % 151 == 0 {
             acc.sample(json!({"file": n, "transitions": z.transitions.len(), "footer": z.footer_text}));
         }
@@ -474,6 +509,7 @@ pub fn run(ctx: &Ctx) -> i32 {
             let name = format!("synth v{} {} table={} leaps={}", z.version, text, z.transitions.len(), z.leaps);
             case_file(&name, &b, &z, false, acc);
             case_local(&name, &b, &z, 1_711_846_800, acc);
+            case_local_sequence(&name, &b, &z, acc);
             acc.branch("synthesised-file");
         }
         if i % 397 == 0 {
@@ -515,6 +551,7 @@ pub fn replay(_op: &str, case: &Value, acc: &mut Acc) -> bool {
     let t = case["t"].as_i64().unwrap_or(0);
     match case["kind"].as_str() {
         Some("local") => case_local(name, &bytes, &z, t, acc),
+        Some("local_seq") => case_local_sequence(name, &bytes, &z, acc),
         _ => {
             // single-timestamp comparison
             let got = call(|| astrolabe::verif_hooks::tzif_offsets(&bytes, &[t]));
